@@ -230,6 +230,21 @@ def _butterfly1_exception(F, b, imp, kind="inplace"):
             if c and c["p"].endswith("<impl [T]>::copy_from_slice") and len(t["args"]) == 2:
                 if b.root(t["args"][0]) == ("param", 3) and b.root(t["args"][1]) == ("param", 2):
                     checked = True
+            elif c and c["local"] and not c.get("us"):
+                # a private safe helper doing the copy: `copy_through(input, output)`
+                g = F.bodies.get(c.get("res", c["id"]))
+                if g is not None and g.kind != "Closure":
+                    amap = {}
+                    for k, a in enumerate(t["args"]):
+                        rr = b.root(a)
+                        if rr[0] == "param":
+                            amap[k + 1] = rr[1]
+                    for gbi, gt in g.calls():
+                        gc = F.callee_of(gt)
+                        if gc and gc["p"].endswith("<impl [T]>::copy_from_slice") and len(gt["args"]) == 2:
+                            d0, s0 = g.root(gt["args"][0]), g.root(gt["args"][1])
+                            if d0[0] == "param" and s0[0] == "param" and amap.get(d0[1]) == 3 and amap.get(s0[1]) == 2:
+                                checked = True
         if not checked:
             for x in range(len(b.blocks)):
                 for (tgt, op, lhs, rhs, truth) in _switch_edges(F, b, x, []):
@@ -252,7 +267,10 @@ def _butterfly1_exception(F, b, imp, kind="inplace"):
         if c is None or c.get("us"):
             return False
         if c["local"]:
-            return False
+            g = F.bodies.get(c.get("res", c["id"]))
+            # safe private helpers made only of safe std calls are fine
+            if g is None or g.r.get("unsafe") or any((F.callee_of(gt) or {"us": True}).get("us") or (F.callee_of(gt) or {}).get("local") for _, gt in g.calls()):
+                return False
     for bi, si, n in b.iter_nodes():
         if n["k"] == "=":
             for place in [n["p"]] + ([n["r"]["p"]] if "p" in n["r"] else []):
@@ -394,8 +412,10 @@ def _len_of_param(F, b, operand):
     return None
 
 
-def _classify_operand(F, b, operand, usizes):
-    """-> ('len', p) | ('param', p) | ('mul', p, k) | ('const', v) | ('rem', a, b) | None"""
+def _classify_operand(F, b, operand, usizes, depth=0):
+    """-> ('len', p) | ('param', p) | ('mul', p, k) | ('const', v) | ('rem', a, b) | ('div', a, b) | None"""
+    if depth > 8:
+        return None
     p = _len_of_param(F, b, operand)
     if p is not None:
         return ("len", p)
@@ -406,41 +426,60 @@ def _classify_operand(F, b, operand, usizes):
         return ("const", r[1]["v"])
     if r[0] == "other" and r[1] and r[1].get("k") == "=":
         rv = r[1]["r"]
-        if rv["k"] == "bin" and rv["op"] in ("Mul", "MulUnchecked", "MulWithOverflow"):
-            a = _classify_operand(F, b, rv["a"], usizes)
-            c = _classify_operand(F, b, rv["b"], usizes)
+        if rv["k"] == "bin" and rv["op"] in ("Mul", "MulUnchecked", "MulWithOverflow", "Shl"):
+            a = _classify_operand(F, b, rv["a"], usizes, depth + 1)
+            c = _classify_operand(F, b, rv["b"], usizes, depth + 1)
             if a and c:
+                if rv["op"] == "Shl":
+                    if a[0] == "param" and c[0] == "const":
+                        return ("mul", a[1], 1 << c[1])
+                    return None
                 if a[0] == "param" and c[0] == "const":
                     return ("mul", a[1], c[1])
                 if c[0] == "param" and a[0] == "const":
                     return ("mul", c[1], a[1])
-        if rv["k"] == "bin" and rv["op"] == "Rem":
-            a = _classify_operand(F, b, rv["a"], usizes)
-            c = _classify_operand(F, b, rv["b"], usizes)
+        if rv["k"] == "bin" and rv["op"] in ("Rem", "Div"):
+            a = _classify_operand(F, b, rv["a"], usizes, depth + 1)
+            c = _classify_operand(F, b, rv["b"], usizes, depth + 1)
             if a and c:
-                return ("rem", a, c)
+                return ("rem" if rv["op"] == "Rem" else "div", a, c)
     return None
 
 
 def _switch_edges(F, b, bi, usizes):
-    """For a switch on a comparison, return [(target_block, op, lhs, rhs, truth)] per edge."""
+    """For a switch on a comparison, return [(target_block, op, lhs, rhs, truth)] per edge.
+    `x.is_empty()` is `len(x) == 0`; `!c` swaps the edges."""
     t = b.blocks[bi]["t"]
     if t["k"] != "switch":
         return []
     r = b.root(t["o"])
-    if not (r[0] == "other" and r[1] and r[1].get("k") == "=" and r[1]["r"]["k"] == "bin"):
+    neg = False
+    for _ in range(3):
+        if r[0] == "other" and r[1] and r[1].get("k") == "=" and r[1]["r"]["k"] == "un" and r[1]["r"]["op"] == "Not":
+            neg = not neg
+            r = b.root(r[1]["r"]["a"])
+        else:
+            break
+    op = lhs = rhs = None
+    if r[0] == "call":
+        c = F.callee_of(r[2])
+        if c and c["p"].endswith("<impl [T]>::is_empty") and r[2]["args"]:
+            rr = b.root(r[2]["args"][0])
+            if rr[0] == "param":
+                op, lhs, rhs = "Eq", ("len", rr[1]), ("const", 0)
+    elif r[0] == "other" and r[1] and r[1].get("k") == "=" and r[1]["r"]["k"] == "bin":
+        rv = r[1]["r"]
+        if rv["op"] in ("Lt", "Le", "Gt", "Ge", "Eq", "Ne"):
+            op = rv["op"]
+            lhs = _classify_operand(F, b, rv["a"], usizes)
+            rhs = _classify_operand(F, b, rv["b"], usizes)
+    if op is None:
         return []
-    rv = r[1]["r"]
-    op = rv["op"]
-    if op not in ("Lt", "Le", "Gt", "Ge", "Eq", "Ne"):
-        return []
-    lhs = _classify_operand(F, b, rv["a"], usizes)
-    rhs = _classify_operand(F, b, rv["b"], usizes)
     out = []
     for val, tgt in t["cases"]:
         if val == 0:
-            out.append((tgt, op, lhs, rhs, False))
-    out.append((t["otherwise"], op, lhs, rhs, True))
+            out.append((tgt, op, lhs, rhs, neg))
+    out.append((t["otherwise"], op, lhs, rhs, not neg))
     return out
 
 
@@ -465,6 +504,98 @@ def _holds(rel, want_op, a, c):
     return False
 
 
+def _ok_summary(F, g):
+    """For a local helper returning Result<&mut [T], ()> / Option<&mut [T]> (e.g. `trim_scratch`):
+    the relations (over g's own parameters) that hold on every path building Ok/Some, and how the
+    payload is derived. Returns (rels, payload) or None."""
+    rt = g.tys(0)
+    if not (rt.startswith("std::result::Result<&") or rt.startswith("std::option::Option<&")):
+        return None
+    usizes = [i for i in range(1, g.argc + 1) if g.tys(i) == "usize"]
+    state = {0: frozenset()}
+    work = [0]
+    while work:
+        bi = work.pop()
+        st = state[bi]
+        outs = []
+        ei = _switch_edges(F, g, bi, usizes)
+        if ei:
+            for (tgt, op, lhs, rhs, truth) in ei:
+                outs.append((tgt, frozenset(st | {_norm(op, lhs, rhs, truth)})))
+        else:
+            for s_ in g.succ(bi):
+                outs.append((s_, st))
+        for tgt, ns in outs:
+            old = state.get(tgt)
+            new = ns if old is None else (old & ns)
+            if old is None or new != old:
+                state[tgt] = new
+                work.append(tgt)
+    rels = None
+    payload = None
+    for bi, si, n in g.iter_nodes():
+        if n["k"] == "=" and n["p"] == [0] and n["r"]["k"] == "agg" and n["r"].get("vname") in ("Ok", "Some") and bi in state:
+            rels = state[bi] if rels is None else (rels & state[bi])
+            payload = g.root(n["r"]["ops"][0]) if n["r"]["ops"] else None
+    if rels is None:
+        return None
+    return rels, payload
+
+
+def _ok_edge_facts(F, b, bi, usizes):
+    """If block bi switches on the discriminant of a Result/Option/ControlFlow obtained from a local
+    helper (directly or through `?`), return (ok_target_block, callee body, call terminator)."""
+    t = b.blocks[bi]["t"]
+    if t["k"] != "switch":
+        return None
+    r = b.root(t["o"])
+    if not (r[0] == "other" and r[1] and r[1].get("k") == "=" and r[1]["r"]["k"] == "discr"):
+        return None
+    src = b.root({"p": [r[1]["r"]["p"][0]]})
+    via_try = False
+    if src[0] == "call":
+        c = F.callee_of(src[2])
+        if c and c["p"].endswith("Try::branch") and src[2]["args"]:
+            via_try = True
+            src = b.root(src[2]["args"][0])
+    if src[0] != "call":
+        return None
+    c = F.callee_of(src[2])
+    if not c or not c["local"]:
+        return None
+    g = F.bodies.get(c.get("res", c["id"]))
+    if g is None:
+        return None
+    ok_val = 0  # Ok / Continue are variant 0; Option::Some is variant 1
+    if g.tys(0).startswith("std::option::Option<") and not via_try:
+        ok_val = 1
+    tgt = None
+    for val, tg in t["cases"]:
+        if val == ok_val:
+            tgt = tg
+    if tgt is None and ok_val == 1:
+        tgt = t["otherwise"]
+    if tgt is None:
+        return None
+    return tgt, g, src[2]
+
+
+def _subst_rel(F, b, rel, g, call, usizes):
+    """Translate a relation over helper g's parameters into the caller's terms."""
+    def tr(x):
+        if x is None:
+            return None
+        if x[0] == "len":
+            rr = b.root(call["args"][x[1] - 1])
+            return ("len", rr[1]) if rr[0] == "param" else None
+        if x[0] == "param":
+            return _classify_operand(F, b, call["args"][x[1] - 1], usizes)
+        if x[0] == "const":
+            return x
+        return None
+    return (rel[0], tr(rel[1]), tr(rel[2]))
+
+
 def r_helper(F, cfg):
     R = Result("R-HELPER", "validators reject short scratch, unequal lengths and remainders on every path to Ok; every chunk is visited; scratch is trimmed")
     validators = find_validators(F)
@@ -477,37 +608,44 @@ def r_helper(F, cfg):
         chunk = usizes[0]
         required = usizes[1] if has_scratch else None
         unroll = len(fns) == 2
+        size = ("mul", chunk, 2) if unroll else ("param", chunk)
         need = {"NOREM"}
         if has_scratch:
             need.add("SCRATCH")
         if len(data) == 2:
             need.add("EQLEN")
-        # --- forward must-dataflow of satisfied classes, facts generated on edges
         nb = len(b.blocks)
         TOP = None
         state = {0: frozenset()}
         work = [0]
         edge_info = {}
+        ok_info = {}
         for bi in range(nb):
             edge_info[bi] = _switch_edges(F, b, bi, usizes)
+            ok_info[bi] = _ok_edge_facts(F, b, bi, usizes) if not edge_info[bi] else None
 
         def gen(rel):
             g = set()
+            if rel[1] is None or rel[2] is None:
+                return g
             if has_scratch and _holds(rel, "Ge", ("len", scratch), ("param", required)):
                 g.add("SCRATCH")
             if len(data) == 2 and _holds(rel, "Eq", ("len", data[0]), ("len", data[1])):
                 g.add("EQLEN")
-            if _holds(rel, "Eq", ("len", data[0]), ("const", 0)):
-                g.add("NOREM0")
-            if _holds(rel, "Eq", ("len", data[0]), ("param", chunk)):
-                g.add("REM1")
-            if rel[1] and rel[1][0] == "rem" and _holds(rel, "Eq", ("rem", ("len", data[0]), ("param", chunk)), ("const", 0)):
-                g.add("MODOK")
+            for d in data[:1]:
+                if _holds(rel, "Eq", ("len", d), ("const", 0)):
+                    g.add("NOREM0")
+                if _holds(rel, "Eq", ("len", d), ("param", chunk)):
+                    g.add("REM1")
+                # L mod size == 0  /  L mod (2*chunk) == chunk
+                if _holds(rel, "Eq", ("rem", ("len", d), size), ("const", 0)):
+                    g.add("MODOK")
+                if unroll and _holds(rel, "Eq", ("rem", ("len", d), size), ("param", chunk)):
+                    g.add("MOD1")
             return g
 
         def block_transfer(bi, st):
             st = set(st)
-            # reassigning the loop-carried data slice invalidates remainder facts
             for s in b.blocks[bi]["s"]:
                 if s["k"] == "=" and s["p"] == [data[0]]:
                     st -= {"NOREM0", "REM1", "CALLED1"}
@@ -516,8 +654,7 @@ def r_helper(F, cfg):
                 c = F.callee_of(t)
                 if c and c["p"].endswith("FnMut::call_mut"):
                     fr = b.root(t["args"][0])
-                    if fr[0] == "param" and fr[1] == fns[-1] and "REM1" in st:
-                        # the single-chunk callable gets the remaining buffers themselves
+                    if fr[0] == "param" and fr[1] == fns[-1] and ("REM1" in st or "MOD1" in st):
                         tup = b.root(t["args"][1])
                         if tup[0] == "agg":
                             roots = [b.root(o) for o in tup[3]["r"]["ops"]]
@@ -534,6 +671,15 @@ def r_helper(F, cfg):
                 for (tgt, op, lhs, rhs, truth) in ei:
                     rel = _norm(op, lhs, rhs, truth)
                     succs.append((tgt, frozenset(st | gen(rel))))
+            elif ok_info[bi]:
+                tgt_ok, g, call = ok_info[bi]
+                summ = _ok_summary(F, g)
+                extra = set()
+                if summ:
+                    for rel in summ[0]:
+                        extra |= gen(_subst_rel(F, b, rel, g, call, usizes))
+                for s_ in b.succ(bi):
+                    succs.append((s_, frozenset(st | extra) if s_ == tgt_ok else st))
             else:
                 for s in b.succ(bi):
                     succs.append((s, st))
@@ -543,7 +689,6 @@ def r_helper(F, cfg):
                 if old is TOP or new != old:
                     state[tgt] = new
                     work.append(tgt)
-        # --- every block that builds Ok must have all required classes
         oks = 0
         for bi, si, n in b.iter_nodes():
             if n["k"] == "=" and n["p"] == [0] and n["r"]["k"] == "agg" and n["r"].get("vname") == "Ok":
@@ -553,7 +698,7 @@ def r_helper(F, cfg):
                 st = state[bi]
                 for cl in sorted(need):
                     if cl == "NOREM":
-                        sat = "NOREM0" in st or "MODOK" in st or ("REM1" in st and "CALLED1" in st)
+                        sat = "NOREM0" in st or "MODOK" in st or (("REM1" in st or "MOD1" in st) and "CALLED1" in st)
                     else:
                         sat = cl in st
                     if sat:
@@ -565,28 +710,38 @@ def r_helper(F, cfg):
                                     "%s can return Ok on a path that never established that %s" % (b.name, what))
         if oks == 0:
             R.violation("helper:%s:no-ok" % b.name, b.where(), "%s never returns Ok" % b.name)
-        # --- loop shape and trimming
         _loop_shape(F, b, R, data, scratch, chunk, required, fns, unroll, usizes)
     return R
 
 
 def _loop_shape(F, b, R, data, scratch, chunk, required, fns, unroll, usizes):
-    """Inside the chunk loop: guard is len(buf) >= size; each data slice is split at `size`, the
+    """Inside the chunk loop: the loop runs to exhaustion (guard `len(buf) >= size` on either
+    polarity, or a counted loop over `len(buf) / size`); each data slice is split at `size`, the
     parameter is re-assigned to the tail, and the callable receives the heads (+ trimmed scratch)."""
     name = b.name
     size = ("mul", chunk, 2) if unroll else ("param", chunk)
-    # loop guard
-    guard_ok = False
+    sizetxt = "2*chunk_size" if unroll else "chunk_size"
+    guard = None
     for bi in range(len(b.blocks)):
         for (tgt, op, lhs, rhs, truth) in _switch_edges(F, b, bi, usizes):
             rel = _norm(op, lhs, rhs, truth)
-            if truth and _holds(rel, "Ge", ("len", data[0]), size):
-                guard_ok = True
-    if not guard_ok:
-        R.violation("loop:%s:guard" % name, b.where(), "%s: chunk loop is not guarded by `len(buffer) >= %s`" % (name, "2*chunk_size" if unroll else "chunk_size"))
+            if lhs is not None and rhs is not None and _holds(rel, "Ge", ("len", data[0]), size):
+                guard = "len(buffer) >= " + sizetxt
+    if guard is None:
+        # counted loop: for _ in 0..(len / size)
+        for bi, t in b.calls():
+            c = F.callee_of(t)
+            if c and c["p"].endswith("IntoIterator::into_iter") and t["args"]:
+                r = b.root(t["args"][0])
+                if r[0] == "agg" and r[3]["r"].get("adt", "").endswith("ops::Range") and len(r[3]["r"]["ops"]) == 2:
+                    lo = _classify_operand(F, b, r[3]["r"]["ops"][0], usizes)
+                    hi = _classify_operand(F, b, r[3]["r"]["ops"][1], usizes)
+                    if lo == ("const", 0) and hi == ("div", ("len", data[0]), size):
+                        guard = "counted loop over len(buffer) / " + sizetxt
+    if guard is None:
+        R.violation("loop:%s:guard" % name, b.where(), "%s: the chunk loop does not run to exhaustion (no `len(buffer) >= %s` guard and no counted loop over len/%s)" % (name, sizetxt, sizetxt))
     else:
-        R.ok({"validator": name, "loop_guard": "len(buffer) >= " + ("2*chunk_size" if unroll else "chunk_size")}, nontrivial=True)
-    # calls of the callables
+        R.ok({"validator": name, "loop": guard}, nontrivial=True)
     loop_fn = fns[0]
     loop_calls = 0
     for bi, t in b.calls():
@@ -603,7 +758,6 @@ def _loop_shape(F, b, R, data, scratch, chunk, required, fns, unroll, usizes):
         ops = tup[3]["r"]["ops"]
         if fr[1] == loop_fn and (unroll or len(fns) == 1):
             loop_calls += 1
-            # heads: field 0 of split_at[_mut](param, size)
             for k, d in enumerate(data):
                 r = b.root(ops[k])
                 good = False
@@ -613,7 +767,6 @@ def _loop_shape(F, b, R, data, scratch, chunk, required, fns, unroll, usizes):
                     if c2 and ("split_at" in c2["p"]) and b.root(sc["args"][0]) == ("param", d) and \
                             _classify_operand(F, b, sc["args"][1], usizes) == size:
                         good = True
-                        # the parameter must be reassigned to field 1 of the same split
                         re_ok = False
                         for (dbi, dsi, dn) in b.whole_defs(d):
                             if dsi != "t":
@@ -623,32 +776,64 @@ def _loop_shape(F, b, R, data, scratch, chunk, required, fns, unroll, usizes):
                         if not re_ok:
                             R.violation("loop:%s:advance:%d" % (name, k), b.where(sc), "%s: data slice %d is not advanced to the tail of its split" % (name, k + 1))
                 if not good:
-                    R.violation("loop:%s:head:%d" % (name, k), b.where(t), "%s: chunk callable argument %d is not the head of split_at(buffer, %s)" % (name, k + 1, "2*chunk_size" if unroll else "chunk_size"))
+                    R.violation("loop:%s:head:%d" % (name, k), b.where(t), "%s: chunk callable argument %d is not the head of split_at(buffer, %s)" % (name, k + 1, sizetxt))
                 else:
                     R.ok(None, nontrivial=True)
         # R-TRIM: the scratch operand is scratch[..required_scratch]
         if scratch is not None:
-            r = b.root(ops[len(data)]) if len(ops) > len(data) else None
-            trimmed = False
-            if r and r[0] == "call":
-                c2 = F.callee_of(r[2])
-                if c2 and ("index_mut" in c2["p"] or "get_unchecked_mut" in c2["p"]):
-                    a0 = b.root(r[2]["args"][0])
-                    a1 = b.root(r[2]["args"][1])
-                    if a0 == ("param", scratch) and a1[0] == "agg" and a1[3]["r"].get("adt", "").endswith("RangeTo"):
-                        if b.root(a1[3]["r"]["ops"][0]) == ("param", required):
-                            trimmed = True
-            if r and r[0] == "field" and r[2] == (("f", 0),) and r[1][0] == "call":
-                c2 = F.callee_of(r[1][2])
-                if c2 and "split_at_mut" in c2["p"] and b.root(r[1][2]["args"][0]) == ("param", scratch) and \
-                        b.root(r[1][2]["args"][1]) == ("param", required):
-                    trimmed = True
+            trimmed = _is_trimmed(F, b, ops[len(data)], scratch, required, usizes) if len(ops) > len(data) else False
             if trimmed:
                 R.ok({"validator": name, "scratch_operand": "scratch[..required_scratch]"}, nontrivial=True)
             else:
                 R.violation("trim:%s" % name, b.where(t), "%s: the scratch handed to the chunk callable is not trimmed to required_scratch" % name)
     if loop_calls == 0:
         R.violation("loop:%s:nocall" % name, b.where(), "%s: the chunk callable is never invoked in the loop" % name)
+
+
+def _is_trimmed(F, b, operand, scratch, required, usizes, depth=0):
+    """Is the operand `scratch[..required]` (index, split_at_mut(..).0), possibly produced by a local
+    helper (`trim_scratch(scratch, required)?`) whose Ok payload is exactly that?"""
+    if depth > 3:
+        return False
+    r = b.root(operand)
+    if r[0] == "call":
+        c2 = F.callee_of(r[2])
+        if c2 and ("index_mut" in c2["p"] or "get_unchecked_mut" in c2["p"]):
+            a0 = b.root(r[2]["args"][0])
+            a1 = b.root(r[2]["args"][1])
+            if a0 == ("param", scratch) and a1[0] == "agg" and a1[3]["r"].get("adt", "").endswith("RangeTo"):
+                if b.root(a1[3]["r"]["ops"][0]) == ("param", required):
+                    return True
+    if r[0] == "field" and r[1][0] == "call":
+        call = r[1][2]
+        c2 = F.callee_of(call)
+        path = r[2]
+        if c2 and "split_at_mut" in c2["p"] and path == (("f", 0),) and b.root(call["args"][0]) == ("param", scratch) and \
+                b.root(call["args"][1]) == ("param", required):
+            return True
+        # payload of Ok(..) / Continue(..) of a local helper
+        src = call
+        if c2 and c2["p"].endswith("Try::branch") and call["args"]:
+            rr = b.root(call["args"][0])
+            if rr[0] == "call":
+                src = rr[2]
+                c2 = F.callee_of(src)
+        if c2 and c2["local"] and path and path[0][0] == "dc":
+            g = F.bodies.get(c2.get("res", c2["id"]))
+            summ = _ok_summary(F, g) if g is not None else None
+            if summ and summ[1] is not None:
+                # payload in g's terms: must be g's slice parameter trimmed to g's usize parameter
+                gs = [i for i in range(1, g.argc + 1) if g.ty(i)["k"] == "ref"]
+                gu = [i for i in range(1, g.argc + 1) if g.tys(i) == "usize"]
+                if len(gs) == 1 and len(gu) == 1:
+                    pay = None
+                    for bi, si, n in g.iter_nodes():
+                        if n["k"] == "=" and n["p"] == [0] and n["r"]["k"] == "agg" and n["r"].get("vname") in ("Ok", "Some") and n["r"]["ops"]:
+                            pay = n["r"]["ops"][0]
+                    if pay is not None and _is_trimmed(F, g, pay, gs[0], gu[0], gu, depth + 1):
+                        if b.root(src["args"][gs[0] - 1]) == ("param", scratch) and b.root(src["args"][gu[0] - 1]) == ("param", required):
+                            return True
+    return False
 
 
 # --------------------------------------------------------------------------- R-ERRSINK
@@ -685,11 +870,16 @@ def r_errsink(F, cfg):
                                 safe_edges.add((sbi, tgt))
                     if c and c["p"].endswith("::is_ok") and b.root(r[2]["args"][0]) in (("call", bi, t),):
                         safe_edges.add((sbi, st["otherwise"]))
-                # match on the discriminant: Ok arm
-                if r[0] == "other" and r[1] and r[1].get("k") == "=" and r[1]["r"]["k"] == "discr" and r[1]["r"]["p"][0] == res_local:
-                    for val, tgt in st["cases"]:
-                        if val == 0:
-                            safe_edges.add((sbi, tgt))
+                # match / if-let on the discriminant of the (possibly moved) result: every edge but the Err one is safe
+                if r[0] == "other" and r[1] and r[1].get("k") == "=" and r[1]["r"]["k"] == "discr":
+                    src = b.root({"p": [r[1]["r"]["p"][0]]})
+                    if src[0] == "call" and src[2] is t:
+                        explicit = {val for val, tgt in st["cases"]}
+                        for val, tgt in st["cases"]:
+                            if val != 1:
+                                safe_edges.add((sbi, tgt))
+                        if 1 in explicit:
+                            safe_edges.add((sbi, st["otherwise"]))
         seen = set()
         stack = [start]
         leak = None
@@ -771,40 +961,43 @@ def r_errsink(F, cfg):
     return R
 
 
-def _is_error_fn(F, fid):
+def _all_usize(b):
+    return all(b.tys(i) == "usize" for i in range(1, b.argc + 1))
+
+
+def _is_error_fn(F, fid, depth=0):
+    """A cold error function: all parameters usize, and it (or the all-usize helpers it calls) can panic."""
     b = F.bodies.get(fid)
-    if b is None or b.kind != "Fn":
+    if b is None or b.kind != "Fn" or not _all_usize(b) or depth > 3:
         return False
-    # all parameters usize, returns (), contains a diverging panic call
-    for i in range(1, b.argc + 1):
-        if b.tys(i) != "usize":
-            return False
     for bi, t in b.calls():
         c = F.callee_of(t)
         if is_panic_callee(c) and t.get("t") is None:
             return True
+        if c and c["local"] and _is_error_fn(F, c.get("res", c["id"]), depth + 1):
+            return True
     return False
 
 
-def _panic_guards(F, b):
+def _panic_guards(F, b, depth=0):
     """Relations that must HOLD for the function not to panic: for every switch where one edge
-    leads (without further branching) to a diverging panic call, the relation of the other edge."""
+    leads (without further branching) to a diverging panic call, the relation of the other edge;
+    plus, through calls of all-usize helper functions, their guards translated to this function's
+    parameters."""
     usizes = list(range(1, b.argc + 1))
     out = []
 
-    def diverges(x, depth=0):
-        if depth > 12:
+    def diverges(x, d=0):
+        if d > 12:
             return False
         t = b.blocks[x]["t"]
         if t["k"] == "call":
             c = F.callee_of(t)
             if t.get("t") is None:
                 return is_panic_callee(c)
-            return diverges(t["t"], depth + 1)
-        if t["k"] == "goto":
-            return diverges(t["t"], depth + 1)
-        if t["k"] in ("drop",):
-            return diverges(t["t"], depth + 1)
+            return diverges(t["t"], d + 1)
+        if t["k"] in ("goto", "drop"):
+            return diverges(t["t"], d + 1)
         return False
     for bi in range(len(b.blocks)):
         edges = _switch_edges(F, b, bi, usizes)
@@ -814,6 +1007,28 @@ def _panic_guards(F, b):
             other = [e for e in edges if e[0] != tgt]
             if other and diverges(other[0][0]):
                 out.append(_norm(op, lhs, rhs, truth))
+    if depth < 3:
+        for bi, t in b.calls():
+            c = F.callee_of(t)
+            if not c or not c["local"]:
+                continue
+            g = F.bodies.get(c.get("res", c["id"]))
+            if g is None or g.kind != "Fn" or not _all_usize(g) or g.id == b.id:
+                continue
+            amap = {}
+            for k, a in enumerate(t["args"]):
+                amap[k + 1] = _classify_operand(F, b, a, usizes)
+
+            def tr(x):
+                if x is None:
+                    return None
+                if x[0] == "param":
+                    return amap.get(x[1])
+                if x[0] == "rem":
+                    return ("rem", tr(x[1]), tr(x[2]))
+                return x
+            for rel in _panic_guards(F, g, depth + 1):
+                out.append((rel[0], tr(rel[1]), tr(rel[2])))
     return out
 
 
@@ -835,10 +1050,11 @@ def r_zerolen(F, cfg):
         guarded = False
         for d in dom:
             for (tgt, op, lhs, rhs, truth) in _switch_edges(F, b, d, usizes):
+                if lhs is None or rhs is None:
+                    continue
                 rel = _norm(op, lhs, rhs, truth)
                 if (tgt in dom or tgt == bi) and (_holds(rel, "Ne", ("param", chunk), ("const", 0)) or _holds(rel, "Gt", ("param", chunk), ("const", 0))
                                                     or _holds(rel, "Ge", ("param", chunk), ("const", 1))):
-                    # the edge must be the only way from d towards the call
                     others = [e for e in _switch_edges(F, b, d, usizes) if e[0] != tgt]
                     if all(not (o[0] in dom or o[0] == bi) for o in others):
                         guarded = True
